@@ -20,7 +20,7 @@ func init() {
 		Title:       "NTLM verifier authenticates only proof of the configured password",
 		DesignRef:   "DESIGN.md §3 C14",
 		Technique:   "who-may-write inventory of NtlmResponse.Authenticated + edge-cut guarded reachability of the accepting store + SSA value identity (same user/password/session) + pairing rule: the session context is dropped on every path on which no challenge is outstanding",
-		LevelText:   "Static: the only non-false store to NtlmResponse.Authenticated is in ntlmContext.authenticate and is reachable only over: a session exists, the configured password of the user named in the message is non-empty, and ProcessAuthenticateMessage on that same session succeeded after SetUserInfo with exactly that user and password; the user name returned is that same value. Sessions are created only by negotiate, fresh per negotiate (new challenge). Contexts are keyed by the caller's session string; after the verifier examined a message the context is removed on every path except when a challenge was just issued, so a server session never examines two authenticate messages (go-ntlm caches the first user's response keys). Empty session or message is refused before any lookup. Decides who can set the flag and under which checked conditions; the NTLMv2 mathematics is go-ntlm's.",
+		LevelText:   "Static: the only non-false store to NtlmResponse.Authenticated is in ntlmContext.authenticate and is reachable only over: a session exists, the configured password of the user named in the message is non-empty, and ProcessAuthenticateMessage on that same session succeeded after SetUserInfo with exactly that user and password; the user name returned is that same value. Sessions are created only by negotiate, fresh per negotiate (new challenge). Contexts are keyed by the caller's session string; after the verifier examined a message the context is removed on every path except when a challenge was just issued, so a server session never examines two authenticate messages (go-ntlm caches the first user's response keys). Empty session or message is refused before any lookup. Decides who can set the flag and under which checked conditions; the NTLMv2 mathematics is go-ntlm's. The verifier's packages never assign to a configured user entry's Username or Password (no trimmed or case-folded credentials).",
 		LevelNote:   "Trusted: go-ntlm ProcessAuthenticateMessage (NTLMv2 response against the stored challenge), go-cache. Not decided: the liveness clause (a correct client is always authenticated) and cache expiry timing.",
 		Explanation: "C14/accept-site inventories all stores to NtlmResponse.Authenticated and cuts the CFG edges of the three required conditions; argument identity ties SetUserInfo, GetPassword, ProcessAuthenticateMessage and the returned name to one user value and one session. C14/session-origin inventories writers of ntlmContext.session. C14/context-scope checks keys and the removal rule in NTLMAuth.Authenticate. C14/empty-args checks the early refusals. C14/database checks the exact-key password lookup.",
 		Assumptions: []string{"go-ntlm's ServerSession verifies the NTLMv2 response against the challenge it generated in the same session"},
